@@ -8,9 +8,9 @@ RULE = ("network R-p1-J1-p2-J2-p3-T (+ parallel p4 so that closing p2 isolates n
         "carrying each ONE of the features {none, time control, off-grid time control, clock-time control with start_clocktime, "
         "tank-level control pair, pressure control, rule on time, rule on level with ELSE, rule on a junction pressure with ELSE, rule true only in an early window, "
         "rule with a <= time bound, leak window spanning the pause, PDD, TCV with a setting control, 30-min hydraulic step, a dead end that is isolated / reconnected / isolated again, a dead end cut off by the simulator's own status logic (emptied tank; wrong-way check valve) and reconnected by a bypass}; "
-        "histories: EVERY subset of <= 1 (quick) / <= 2 (thorough; <= 3 on three features) pause instants of the hourly grid x "
+        "histories: EVERY subset of <= 1 (quick) / <= 3 (thorough) pause instants of the hourly grid x "
         "pickle round trip {no, after every pause} x {new simulator object per part}; thorough adds all pairs of features with "
-        "single pauses.  oracle: index of every continued part starts at the first hydraulic step after the pause, indices strictly "
+        "every single pause and four double pauses, with and without pickling.  oracle: index of every continued part starts at the first hydraulic step after the pause, indices strictly "
         "increase across parts, concatenated heads / demands / flows / statuses equal the uninterrupted run (1e-6).  non-trivial: "
         ">= 1 pause and the uninterrupted run has >= 1 status change or tank-level change after the first pause")
 ASSUMPTIONS = ["parts are run by raising options.time.duration and calling run_sim on a new WNTRSimulator, as test_multiple_simulations does",
@@ -106,8 +106,8 @@ def cases(tier):
         sets = [()] + [(k,) for k in grid] + [(0,), (0, 3)]       # (0: a first segment of duration zero)
         if tier == "thorough":
             sets += list(itertools.combinations(grid, 2))
-            if f in ("rule_level_else", "level_pair", "time"):
-                sets += list(itertools.combinations(grid, 3))
+            sets += list(itertools.combinations(grid, 3))
+            sets += [(0, a, b) for a, b in itertools.combinations(grid, 2) if b - a in (1, 3)]
         for ps in sets:
             for pk in (False, True):
                 if not ps and pk:
@@ -119,8 +119,9 @@ def cases(tier):
                 continue
             if f == "clock" or g == "clock" or f == "hyd30" or g == "hyd30":
                 continue
-            for k in (2, 4, 6):
-                out.append({"features": [f, g], "pauses": [k * H], "pickle": True})
+            for ps in [(k,) for k in grid] + [(2, 3), (1, 4), (3, 6), (4, 5)]:
+                for pk in (False, True):
+                    out.append({"features": [f, g], "pauses": [k * H for k in ps], "pickle": pk})
     return out
 
 
